@@ -505,6 +505,53 @@ func main() {
 			get(chA, time.Second)
 			stats["unblock_target_checks"]++
 
+			// ---- CLIENT UNBLOCK while other connections keep looking at the client (CLIENT LIST reads
+			// the blocked flag of every connection): no unblock may get lost
+			{
+				stop := make(chan struct{})
+				var pollers sync.WaitGroup
+				for q := 0; q < 2; q++ {
+					pollers.Add(1)
+					go func() {
+						defer pollers.Done()
+						pc := vs.NewClient()
+						defer pc.Close()
+						for {
+							select {
+							case <-stop:
+								return
+							default:
+								do(pc, "CLIENT", "LIST")
+							}
+						}
+					}()
+				}
+				lost := ""
+				for i := 0; i < 25 && lost == ""; i++ {
+					ch := async(a, mk(tmpl, "uk", "0")...)
+					if !waitBlocked(a, time.Second) {
+						lost = "client never became blocked"
+						break
+					}
+					mode := []string{"TIMEOUT", "ERROR"}[i%2]
+					do(p, "CLIENT", "UNBLOCK", fmt.Sprint(a.ID()), mode)
+					if _, ok := get(ch, 800*time.Millisecond); !ok {
+						lost = fmt.Sprintf("CLIENT UNBLOCK %s number %d while two connections run CLIENT LIST in a loop: the client is still blocked 800 ms later", mode, i+1)
+						// let it go
+						do(p, "RPUSH", "uk", "x")
+						get(ch, time.Second)
+						do(p, "DEL", "uk", "dst")
+					}
+					stats["unblock_under_client_list"]++
+				}
+				close(stop)
+				pollers.Wait()
+				if lost != "" {
+					fail("unblock-under-client-list", round, []string{"A: " + strings.Join(mk(tmpl, "uk", "0"), " "), "Q1, Q2: CLIENT LIST in a loop", "P: CLIENT UNBLOCK <A>"}, lost)
+					break
+				}
+			}
+
 			// ---- unblock arriving between registration and capture (schedule point)
 			{
 				gate := make(chan struct{})
